@@ -12,6 +12,20 @@ from .vc_expr import MaskedVec, Slice
 I = z3.IntSort()
 UNROLL_MAX = 8
 
+# transcendental schemas: name -> (E, L, *args) -> (side condition or None, fact)
+SCHEMAS = {
+    "exp_add": lambda E, L, a, b: (None, E(a) * E(b) == E(a + b)),
+    "exp_pos": lambda E, L, a: (None, E(a) > 0),
+    "exp_zero": lambda E, L: (None, E(z3.RealVal(0)) == 1),
+    "log_exp": lambda E, L, a: (None, L(E(a)) == a),
+    "exp_log": lambda E, L, a: (a > 0, E(L(a)) == a),
+    "log_mul": lambda E, L, a, b: (z3.And(a > 0, b > 0), L(a * b) == L(a) + L(b)),
+    "log_mul_if": lambda E, L, a, b: (None, z3.Implies(z3.And(a > 0, b > 0), L(a * b) == L(a) + L(b))),
+}
+SCHEMA_DOC = {"exp_add": "exp(a)exp(b) = exp(a+b)", "exp_pos": "exp(a) > 0", "exp_zero": "exp(0) = 1",
+              "log_exp": "log(exp(a)) = a", "exp_log": "exp(log(a)) = a for a > 0",
+              "log_mul": "log(ab) = log a + log b for a, b > 0", "log_mul_if": "log(ab) = log a + log b for a, b > 0"}
+
 
 def _has(idxs, tag):
     return any(isinstance(x, str) and x == tag for x in idxs)
@@ -60,6 +74,12 @@ class StmtMixin:
         if m is None:
             raise Unsupported(f"statement {type(s).__name__} at line {s.lineno}")
         try:
+            pre_gh = self.ghost_for(s, before=True)
+            if pre_gh:
+                pre = self.exec_block(pre_gh, st)
+                if len(pre) != 1 or pre[0][1] != self.NORMAL:
+                    raise Unsupported("ghost code before a statement must be straight-line")
+                st = pre[0][0]
             outs = m(s, st)
             gh = self.ghost_for(s)
             if gh:
@@ -75,15 +95,21 @@ class StmtMixin:
         except ClosureFork as cf:
             raise Unsupported(f"closure with several exits used inside an expression (line {s.lineno})")
 
-    def ghost_for(self, s):
-        if not self.contract.ghost_after or not isinstance(s, (ast.Assign, ast.AugAssign, ast.Expr)):
+    def ghost_for(self, s, before=False):
+        if not self.contract.ghost_after or not isinstance(s, (ast.Assign, ast.AugAssign, ast.Expr, ast.Return)):
             return []
         if getattr(s, "_is_ghost", False):
             return []
         src = ast.unparse(s)
         out = []
         for anchor, code in self.contract.ghost_after:
-            if src.startswith(anchor):
+            is_before = anchor.startswith("before:")
+            if is_before != before:
+                continue
+            key = anchor[len("before:"):] if is_before else anchor
+            if isinstance(s, ast.Return) and not is_before:
+                continue
+            if src.startswith(key):
                 self.ghost_hits.add(anchor)
                 body = ast.parse(code).body
                 for b in body:
@@ -139,6 +165,19 @@ class StmtMixin:
             return [(st, self.NORMAL, None)]  # docstring
         if getattr(s, "_is_ghost", False) and isinstance(s.value, ast.Call) and self.callname(s.value.func) == "induct":
             return self.ghost_induct(s, st)
+        if getattr(s, "_is_ghost", False) and isinstance(s.value, ast.Call) and self.callname(s.value.func) in SCHEMAS:
+            # instance of an assumed transcendental schema (A-MATH), checked to be one by construction
+            nm = self.callname(s.value.func)
+            vals = [self.to_float(self.ev(st, a, True)) for a in s.value.args]
+            E_, L_ = self.ufun("u_exp"), self.ufun("u_log")
+            pre, fact = SCHEMAS[nm](E_, L_, *vals)
+            if pre is not None:
+                self.ob(st, f"L{s.lineno}:schema:{nm}:side-condition", "lemma", pre, s.lineno, f"{nm} side condition")
+            st.assume(fact)
+            note = f"A-MATH schema instance used in {self.fn.qualname}: {nm} -- {SCHEMA_DOC[nm]}"
+            if note not in self.notes:
+                self.notes.append(note)
+            return [(st, self.NORMAL, None)]
         if getattr(s, "_is_ghost", False) and isinstance(s.value, ast.Call) and self.callname(s.value.func) == "assert_":
             g = self.spec_bool_node(st, s.value.args[0])
             self.ob(st, f"L{s.lineno}:ghost-assert", "lemma", g, s.lineno, ast.unparse(s.value.args[0]))
